@@ -14,7 +14,7 @@ from .. import gen, build, mcase, oracles
 from ..mapmodel import MapModel
 
 ID = "C16"
-CASES = {"quick": 1500, "thorough": 40000}
+CASES = {"quick": 3000, "thorough": 50000}
 MIN_CASES_PER_SHARD = 10
 CASE_TIMEOUT = 120
 RULE = ("one case = planar base case (map x trace x configuration: all families, non-emitting on/off, widths, cut-offs) and 10 transformed "
@@ -219,4 +219,4 @@ def replay_case(ctx, wit):
 TECHNIQUE = "runtime monitoring: metamorphic differential monitor over sibling executions (base case vs its image under exact relabelling / reordering / axis swap / 2^k scaling / translation)"
 LEVEL_TEXT = ("{Q} (quick) / {T} (thorough) base cases x up to 10 exact transformations; index and best probability of the transformed run must equal "
               "the base run's, and the best path must be the image of the base path unless the optimum is an exact tie. Held-on-observed.")
-LEVEL_NOTE = "Trusted: exactness of the transformations in binary floating point (powers of two, dyadic coordinates for translation)."
+LEVEL_NOTE = "Order-dependence is fault-localised by comparing the two lattices layer by layer (first divergence + exact-tie evidence); two heuristic mechanisms are recorded findings, a difference in how the width pruning treats ties never is. Trusted: exactness of the transformations in binary floating point (powers of two, dyadic coordinates for translation)."
